@@ -89,13 +89,15 @@ class FakeResponse:
 
 class Harness:
 
-  def __init__(self, root, plain):
+  def __init__(self, root, plain, raw_payload=None):
     from fedjax.datasets import downloads  # pylint: disable=g-import-not-at-top
     self.dl = downloads
     downloads.log = lambda *a, **k: None
     self.root = root
     self.plain = plain
-    self.comp = lzma.compress(plain)
+    # raw_payload: serve these bytes as the download (not valid lzma): exercises exact payload sizes of the transfer
+    self.download_only = raw_payload is not None
+    self.comp = raw_payload if raw_payload is not None else lzma.compress(plain)
     self.fname = 'payload.bin.lzma'
     self.url = 'https://example.invalid/some/dir/' + self.fname
     self.log = None
@@ -149,6 +151,8 @@ class Harness:
     calls = []
 
     def fake_get(url, *a, **kw):
+      if net_fail == -1:
+        raise ConnectionError('injected connection failure')
       h.log.append({'e': 'NetGet'})
       calls.append(url)
       return FakeResponse(h.comp, net_fail, h.log)
@@ -163,8 +167,9 @@ class Harness:
         try:
           p = self.dl.maybe_download(self.url, self.root, progress_=range)
           self.log.append({'e': 'Return', 'which': self.name_of(p)})
-          q = self.dl.maybe_lzma_decompress(p)
-          self.log.append({'e': 'Return', 'which': self.name_of(q)})
+          if not self.download_only:
+            q = self.dl.maybe_lzma_decompress(p)
+            self.log.append({'e': 'Return', 'which': self.name_of(q)})
         except faults.SimCrash:
           self.log.append({'e': 'Crash'})
           outcome = 'crash'
@@ -201,11 +206,11 @@ def mk_trace(h, init_snap, events, meta):
           'events': [dict(e) for e in events]}
 
 
-def explore(ctx, plain, max_depth, tag, stale):
+def explore(ctx, plain, max_depth, tag, stale, raw_payload=None):
   root = os.path.join(ctx.scratch, 'cache_' + tag)
   shutil.rmtree(root, ignore_errors=True)
   os.makedirs(root)
-  h = Harness(root, plain)
+  h = Harness(root, plain, raw_payload)
   init = {}
   if stale is not None:
     init[h.fname + '.partial'] = h.comp[:stale]
@@ -235,7 +240,7 @@ def explore(ctx, plain, max_depth, tag, stale):
         if kinds[i] == 'Write':
           plans.append(dict(crash_at=i, fault='crash', partial=0.5))
           plans.append(dict(crash_at=i, fault='crash', partial='last'))
-      for b in range(nblocks + 1):
+      for b in range(-1, nblocks + 1):     # -1: the connection itself fails
         plans.append(dict(net_fail=b))
       for plan in plans:
         h.restore(d0)
@@ -264,7 +269,8 @@ def payloads(ctx):
 
   # compressed size is what the download loop sees; incompressible data keeps compressed ~ plain size
   out = [('empty', b''), ('tiny', b'x'), ('one_block_minus', incompressible(blk - 200)),
-         ('several_blocks', incompressible(2 * blk + 5))]
+         ('several_blocks', incompressible(2 * blk + 5)), ('raw_exactly_one_block', incompressible(blk)), ('raw_exactly_two_blocks', incompressible(2 * blk)),
+         ('raw_zero_bytes', b'')]
   if ctx.thorough:
     out += [('text', b'federated ' * 30000), ('about_one_block', incompressible(blk - 60)),
             ('three_blocks', incompressible(3 * blk + 17))]
@@ -274,12 +280,15 @@ def payloads(ctx):
 def leg_t(ctx):
   depth = 3 if ctx.thorough else 2
   total = 0
+  fault_pcs = set()
   for pi, (tag, plain) in enumerate(payloads(ctx)):
     stale = None if pi % 2 == 0 else 1
-    h, traces, nodes, sites = explore(ctx, plain, depth, tag, stale)
+    raw = plain if tag.startswith('raw_') else None
+    h, traces, nodes, sites = explore(ctx, plain, depth, tag, stale, raw_payload=raw)
     consts = dict(Total=len(h.comp), DTotal=len(plain), Block=1 << 18, MaxFaults=1, AtomicDownload=True,
                   AtomicDecomp=True, StalePartial=False)
-    verdicts, _ = vtraces.validate_batch(ctx, 'CacheTrace', traces, consts, tag)
+    verdicts, rr = vtraces.validate_batch(ctx, 'CacheTrace', traces, consts, tag, invariants=['FaultPcs'])
+    fault_pcs |= {j['faultpc'] for j in rr.json if 'faultpc' in j}
     for t, v in zip(traces, verdicts):
       sig = (tag, tuple(e['e'] for e in t['events']))
       ctx.case(key=hash(sig), nontrivial=t['meta']['fault'] is not None or t['meta']['depth'] > 0)
@@ -301,6 +310,12 @@ def leg_t(ctx):
       t = traces[min(len(traces) - 1, 9)]
       ctx.sample({'payload': tag, 'compressed_bytes': len(h.comp), 'fault': t['meta'],
                   'events': [vtraces.short(e) for e in t['events']][:30]})
+  ctx.leg('T', spec_fault_points_hit=sorted(fault_pcs))
+  want = {'dl_open', 'dl_get', 'dl_write', 'dl_rename', 'dc_open', 'dc_copy', 'dc_rename', 'raising'}
+  # a code change that reorders the effects shifts where faults land; that shows up as rejected traces above, so the
+  # coverage demand is a machinery condition only when nothing else was reported
+  if want - fault_pcs and not ctx.violations:
+    raise Machinery(f'fault-point coverage: injected faults never hit the specification control states {sorted(want - fault_pcs)}')
   return total
 
 
